@@ -50,3 +50,20 @@ func (v *VerifModule) Handle(product string, rules []VerifRule, req *bfe_basic.R
 	ret, resp := v.m.authJWTHandler(req)
 	return ret, resp, nil
 }
+
+// VerifLoadKeyFile runs readKeyFile on filename, installs the keys as the only rule of product
+// (condition default_t()) and runs authJWTHandler on req.
+func (v *VerifModule) VerifLoadKeyFile(filename, product string, req *bfe_basic.Request) (n int, ret int, resp *bfe_http.Response, err error) {
+	kps, err := readKeyFile(filename)
+	if err != nil {
+		return 0, 0, nil, err
+	}
+	cond, err := condition.Build("default_t()")
+	if err != nil {
+		return 0, 0, nil, err
+	}
+	list := RuleList{AuthJWTRule{Cond: cond, Keys: kps, Realm: "R"}}
+	v.m.ruleTable.Update(AuthJWTConf{Version: "verif", Config: ProductRules{product: &list}})
+	ret, resp = v.m.authJWTHandler(req)
+	return len(kps), ret, resp, nil
+}
